@@ -306,3 +306,85 @@ def c18_d(ctx):
               'completed_process = completed_process.stdout if stdout',
               'the handler is not given the captured stdout when stdout is requested', fn=re_,
               node=out[0] if out else re_.node)
+
+
+@obligation('C18-e', 'T13 T3', 'a requested result type reaches the default parser: every type '
+            'that selects the default parser is also forwarded as dtype', floor=3,
+            necessary='a type that installs the default parser but is not forwarded is parsed as '
+                      'float64: the output is not of the requested type')
+def c18_e(ctx):
+    eo = ctx.fn(T + ':external_operation')
+    ex = ctx.ex(eo)
+    p = 'process_result'
+    if p not in eo.all_params:
+        raise AnchorMissing('process_result parameter')
+
+    def type_set(t):
+        """types accepted by isinstance(process_result, T) -> frozenset of dotted names"""
+        m = match(t, pattern('isinstance({}, _T)'.format(p)))
+        if m is None:
+            return None
+        T_ = m['T']
+        items = T_[1] if T_[0] == 'tuple' else (T_,)
+        return frozenset(show(x) for x in items)
+    # the statement that installs the default parser and the statement that forwards the dtype
+    inst = [s for s in own_nodes(eo.node) if isinstance(s, ast.Assign) and
+            isinstance(s.targets[0], ast.Name) and s.targets[0].id == p and
+            contains(ex.raw(s.value), 'stdout_to_array')]
+    fwd = [s for s in own_nodes(eo.node) if isinstance(s, ast.Assign) and
+           isinstance(s.targets[0], ast.Subscript) and
+           ex.raw(s.targets[0].slice) == ('const', 'dtype')]
+    fwd += [s for s in own_nodes(eo.node) if isinstance(s, ast.Assign) and
+            any(k == 'dtype' for (k, v) in (term_kwargs_safe(ex.raw(s.value))))]
+    if not inst or not fwd:
+        raise AnchorMissing('default parser installation / dtype forwarding in external_operation')
+
+    def accepted(stmt):
+        out = set()
+        for (t, pol, _) in ctx.guards(eo, stmt):
+            if pol:
+                ts = type_set(t)
+                if ts is not None:
+                    out = out | ts if not out else out & ts
+        return out
+    a_inst = accepted(inst[0])
+    # the installing statement is guarded by `is None or isinstance(...)`: collect from the
+    # disjunction as well
+    for (t, pol, _) in ctx.guards(eo, inst[0]):
+        if pol and t[0] == 'bool' and t[1] == 'or':
+            for x in t[2]:
+                ts = type_set(x)
+                if ts is not None:
+                    a_inst = a_inst | ts
+    a_fwd = accepted(fwd[0])
+    ctx.check(bool(a_inst) and a_inst <= a_fwd, eo,
+              'types forwarded as dtype = types that select the default parser',
+              sorted(a_inst), 'the default parser is installed for {} but the dtype is forwarded '
+              'only for {}: a type given as {} is silently parsed as float64'.format(
+                  sorted(a_inst), sorted(a_fwd), sorted(a_inst - a_fwd)), fn=eo, node=fwd[0])
+    # the forwarded value is the requested type (possibly as its string)
+    v = ex.raw(fwd[0].value)
+    okv = v in (('name', p), ('param', p)) or match(v, pattern('str({})'.format(p))) is not None \
+        or match(v, pattern('np.dtype({})'.format(p))) is not None or \
+        any(kv == ('name', p) or kv == ('param', p) or
+            match(kv, pattern('str({})'.format(p))) is not None
+            for (k, kv) in term_kwargs_safe(v) if k == 'dtype')
+    ctx.check(okv, eo, 'forwarded dtype is the requested type', 'dtype = str(process_result)',
+              'the forwarded dtype is {}'.format(show(v)[:50]), fn=eo, node=fwd[0])
+    # the parser that receives it
+    sa_ = ctx.fn(T + ':stdout_to_array')
+    exs = ctx.ex(sa_)
+    cs = [c for c in ctx.calls(sa_) if callee_name(c) in ('fromstring', 'loadtxt', 'array',
+                                                          'asarray', 'genfromtxt')]
+    okp = bool(cs) and any(any(k.arg is None for k in c.keywords) or
+                           any(k.arg == 'dtype' for k in c.keywords) for c in cs)
+    ctx.check(okp, sa_, 'parser hands the keyword arguments to numpy', '**kwargs',
+              'stdout_to_array does not pass its keyword arguments (dtype) on', fn=sa_,
+              node=cs[0] if cs else sa_.node)
+
+
+def term_kwargs_safe(t):
+    try:
+        return list(dict(t[3]).items()) if t[0] == 'call' else []
+    except Exception:
+        return []
